@@ -194,9 +194,20 @@ fn run_case(cx: &CaseCtx, rep: &mut Report) {
 		pmtiles_root_boundary_walk(cx, rep, &mut rng);
 		return;
 	}
-	let target = TARGETS[(cx.case % 5) as usize];
+	let target = if (13..=15).contains(&cx.case) { "pmtiles" } else { TARGETS[(cx.case % 5) as usize] };
 	let big = cx.case < 10 && (target == "pmtiles" || target == "versatiles") && cx.case < 5 * cx.tier.pick(1, 2);
-	let ts = if big {
+	let ts = if (13..=15).contains(&cx.case) {
+		// exactly 16383 / 16384 / 16385 directory entries: the writer's single-directory threshold
+		let n = 16383 + (cx.case - 13) as usize;
+		let mut t = big_tileset(&mut rng, target);
+		t.tiles.retain(|k, _| k.0 == 9);
+		let keys: Vec<crate::gen::Key> = t.tiles.keys().cloned().collect();
+		for k in keys.iter().skip(n) {
+			t.tiles.remove(k);
+		}
+		t.shape = format!("{} tiles at z9 (single-directory threshold)", t.tiles.len());
+		t
+	} else if big {
 		big_tileset(&mut rng, target)
 	} else {
 		let opts = GenOpts { max_tiles: cx.tier.pick(1200, 4000), formats: pairs_for(target), allow_big: true, ..Default::default() };
